@@ -342,7 +342,7 @@ def main(prop):
                 ck.violation("order_gfa did not complete normally: %s" % (res.get("exc") or "exit %s" % res.get("code")), replay)
                 continue
             impl = [{"name": c, "out": tokenize_gfa(res["files"][c]) if c in res["files"] else None} for c in order]
-            if prop == "C06" and it % 5 == 1 and not default_order:
+            if prop == "C06" and it % 5 == 3 and not default_order:      # consumed at it % 5 == 4: never on a default-order turn (it % 15 == 7)
                 fu = edited_rerun_case(rng, res, order)
                 if fu:
                     followups.append(fu)
